@@ -205,3 +205,84 @@ def snapshot_name(f: Func) -> str:
                 and isinstance(n.value, ast.Dict) and any(isinstance(k, ast.Constant) and k.value == "avail_cpu" for k in n.value.keys):
             return n.targets[0].value.id
     return "pool_stats"
+
+
+def ob_assignments_returned(ctx, num, key: str, label: str):
+    """Every Assignment a scheduler constructs is handed to the executor: the constructor already moved the operators to ASSIGNED, so an
+    assignment that is dropped on the way to the returned list leaves its operators assigned to nothing, for ever.
+    Flow accepted:  v = Assignment(..) ; L.append(v)  [same path]  ;  ( for j in L: M.append(j) | M.extend(L) | M += L )*  ;  return (.., M)."""
+    P = ctx.P
+    f = scheduler(P, key)
+    g = cfg_of(f, subst_env=False)
+    rets = [r for r in own_nodes(f.node) if isinstance(r, ast.Return) and r.value is not None]
+    returned = set()
+    for r in rets:
+        v = r.value
+        second = v.elts[1] if isinstance(v, ast.Tuple) and len(v.elts) == 2 else None
+        if isinstance(second, ast.Name):
+            returned.add(second.id)
+    sites = [(fn_, c) for fn_, c in assignment_sites(P, f) if fn_.node is f.node]
+
+    def feeds(L: str, at: ast.AST, depth: int = 0) -> Tuple[bool, str]:
+        """the content of list L (as filled at `at`) reaches a returned list"""
+        if L in returned:
+            return True, f"`{L}` is returned"
+        if depth > 3:
+            return False, "too many hops"
+        for n in own_nodes(f.node):
+            tgt = None
+            how = None
+            if isinstance(n, ast.For) and norm.is_name(n.iter, L) and isinstance(n.target, ast.Name):
+                apps = [c for c in ast.walk(n) if isinstance(c, ast.Call) and isinstance(c.func, ast.Attribute) and c.func.attr == "append" and isinstance(c.func.value, ast.Name)
+                        and len(c.args) == 1 and norm.is_name(c.args[0], n.target.id)]
+                for a in apps:
+                    hid = g.node_of(n).id
+                    if g.path_avoiding(hid, {hid, g.exit.id}, {g.node_of(a).id}, edge_ok=lambda x, y, lab, hid=hid: not (x == hid and lab == "done")) is None:
+                        tgt, how = a.func.value.id, f"every element of `{L}` is appended to `{a.func.value.id}`"
+            elif isinstance(n, ast.Expr) and isinstance(n.value, ast.Call) and isinstance(n.value.func, ast.Attribute) and n.value.func.attr == "extend" \
+                    and isinstance(n.value.func.value, ast.Name) and len(n.value.args) == 1 and norm.is_name(n.value.args[0], L):
+                tgt, how = n.value.func.value.id, f"`{n.value.func.value.id}.extend({L})`"
+            elif isinstance(n, ast.AugAssign) and isinstance(n.op, ast.Add) and isinstance(n.target, ast.Name) and norm.is_name(n.value, L):
+                tgt, how = n.target.id, f"`{n.target.id} += {L}`"
+            if tgt is None:
+                continue
+            # the hand-over runs after the fill, on every path from it to the exit (unless L is reset first - not modelled: a reset of L between is a miss)
+            if g.path_avoiding(g.node_of(at).id, {g.exit.id}, {g.node_of(n).id}) is not None:
+                continue
+            ok, why = feeds(tgt, n, depth + 1)
+            if ok:
+                return True, f"{how}; {why}"
+        return False, f"`{L}` is neither returned nor handed over to a returned list on every path"
+
+    for fn_, c in sites:
+        p_ = parent(c)
+        ok, why = False, "the Assignment is not bound to a name"
+        if isinstance(p_, ast.Assign) and len(p_.targets) == 1 and isinstance(p_.targets[0], ast.Name):
+            v = p_.targets[0].id
+            apps = [a for a in calls_named(f, "append") if isinstance(a.func, ast.Attribute) and isinstance(a.func.value, ast.Name) and len(a.args) == 1 and norm.is_name(a.args[0], v)]
+            ok, why = False, f"`{v}` is never appended to a list"
+            for a in apps:
+                sa_ = a
+                while not isinstance(sa_, ast.stmt):
+                    sa_ = parent(sa_)
+                lp = None
+                q = parent(p_)
+                while q is not None and q is not f.node:
+                    if isinstance(q, (ast.For, ast.While)):
+                        lp = q
+                        break
+                    q = parent(q)
+                if g.dominates(p_, sa_) and g.control_equivalent(p_, sa_, lp):
+                    ok, why = feeds(a.func.value.id, sa_)
+                    why = f"`{norm.U(a)}` together with the construction; " + why
+                    if ok:
+                        break
+        elif isinstance(p_, ast.Call) and isinstance(p_.func, ast.Attribute) and p_.func.attr == "append" and isinstance(p_.func.value, ast.Name):
+            sa_ = p_
+            while not isinstance(sa_, ast.stmt):
+                sa_ = parent(sa_)
+            ok, why = feeds(p_.func.value.id, sa_)
+        elif isinstance(p_, ast.Return):
+            ok, why = True, "returned directly"
+        ctx.ob(num, "K6", f"[{label}] every Assignment constructed is handed to the executor (its operators were already moved to ASSIGNED by the constructor)", ok, f, c,
+               construct="Assignment reaches the returned list", detail=why)
